@@ -3,9 +3,9 @@
 EXTENDS AggHist, Json, TLC, TraceLib
 CONSTANT KNOWN
 Trace == ndJsonDeserialize("trace.ndjson")
-VARIABLES l, viol, hist, aggs
-tvars == <<l, viol, hist, aggs>>
-Init == l = 1 /\ viol = {} /\ hist = 0 /\ aggs = <<>>
+VARIABLES l, viol, hist, aggs, disp
+tvars == <<l, viol, hist, aggs, disp>>
+Init == l = 1 /\ viol = {} /\ hist = 0 /\ aggs = <<>> /\ disp = <<>>
 Of(a, q) == IF q \in DOMAIN a THEN a[q] ELSE <<>>
 DisputeEvents == {"ProposeDispute", "AddFeeToDispute", "AddEvidence"}
 
@@ -21,6 +21,21 @@ CheckHistory(e, post) ==
                    \A i \in NewlyFlagged(aggs[q], post[q]) : (e.ev = "AddFeeToDispute" \/ (post[q][i].rep = e.rep /\ post[q][i].mh = e.rblock /\ q = e.q))
               THEN {} ELSE {"FlaggedAggregateIsTheDisputedReportsOne"})
         ELSE {})
+
+\* "an aggregate becomes flagged when the report that determined it is disputed": a funding message that escrows the
+\* disputed stake now (the dispute's escrow record appears), or accepted evidence, about a report that determined an
+\* aggregate (facts observed before the message) leaves that aggregate flagged
+DRange(s) == { s[i] : i \in DOMAIN s }
+HasEscrow(d) == "escrow" \in DOMAIN d
+Target(e, post) == IF e.ev = "AddFeeToDispute" THEN CHOOSE d \in DRange(post) : d.id = e.id
+                   ELSE CHOOSE d \in DRange(post) : \A x \in DRange(post) : x.id <= d.id
+FundedNow(e, post) == DRange(post) # {} /\ (e.ev = "AddFeeToDispute" => \E d \in DRange(post) : d.id = e.id) /\
+  LET d == Target(e, post) IN HasEscrow(d) /\ ~(\E p \in DRange(disp) : p.hash = d.hash /\ HasEscrow(p))
+CheckDisputed(e, post) ==
+  IF e.ok /\ "facts" \in DOMAIN e /\ e.facts.determined
+     /\ (e.ev = "AddEvidence" \/ (e.ev \in {"ProposeDispute", "AddFeeToDispute"} /\ FundedNow(e, e.post.dispute.disputes)))
+  THEN (IF e.q \in DOMAIN post /\ \E a \in DRange(post[e.q]) : a.ts = e.facts.aggts /\ a.flag THEN {} ELSE {"AggregateOfDisputedDeterminingReportBecomesFlagged"})
+  ELSE {}
 
 Answer(p) == IF p.ok THEN [none |-> FALSE, ts |-> p.ts, val |-> p.val] ELSE NONE
 AnswerTs(p) == IF p.ok THEN [none |-> FALSE, ts |-> p.ts] ELSE NONE
@@ -40,7 +55,7 @@ CheckProbe(p, a) ==
   ELSE {"UnknownProbe"}
 
 Check(e) ==
-  CheckHistory(e, e.post.aggs)
+  CheckHistory(e, e.post.aggs) \cup CheckDisputed(e, e.post.aggs)
   \cup (IF e.ev = "Probe" THEN UNION { CheckProbe(e.probes[i], e.post.aggs) : i \in DOMAIN e.probes } ELSE {})
 
 Step ==
@@ -48,7 +63,7 @@ Step ==
   /\ LET e == Trace[l]
          reset == e.hist # hist
      IN /\ hist' = e.hist
-        /\ aggs' = e.post.aggs
+        /\ aggs' = e.post.aggs /\ disp' = e.post.dispute.disputes
         /\ viol' = IF reset THEN viol ELSE AddViol(viol, l, Check(e))
         /\ l' = l + 1
 Spec == Init /\ [][Step]_tvars
